@@ -27,7 +27,7 @@ for the model correspondence only.
 import os, json, glob, random, time
 from explore import Job, run_jobs, Disagreement, impl_step, replay_with_monitor, shrink, _masked_equal
 import axilib as X
-from axilib import (make_shared, make_xbar, make_arb, make_dec, make_p2p, small_alphabet, small_parts, joint_sample,
+from axilib import (make_shared, make_xbar, make_arb, make_dec, make_p2p, make_soc_bus, small_alphabet, small_parts, joint_sample,
                     product_letters, m_part, s_part, split_outs, split_letter, AxiEnv, WalkEnv, AxiMonitor,
                     NM, NS, AWV, AWA, AWP, WV, WP, BR, ARV, ARA, ARP, RR, AWR, WR, BV, BP, ARR, RV, RL, RP)
 from wblib import DecAll, DecHi, DecSet, DecRegion
@@ -39,6 +39,7 @@ FMT = ("per master: aw.valid aw.addr aw.pay w.valid w.pay b.ready ar.valid ar.ad
 F_ADDR = "C08-decoder-second-addr-other-slave"
 F_WDATA = "C08-decoder-w-before-aw"
 F_GAP = "C08-arbiter-w-then-idle-gap"
+F_ID = "C08-axi-interconnect-id-truncated"
 
 # address maps on a 2-bit byte address, 8-bit data (word address = byte address)
 MAPS = {
@@ -222,6 +223,40 @@ def jobs(tier, seed=0):
       lambda **k: make_xbar(2, d64b, data_width=64, address_width=32, **k))
     B("AXIShared 3x3 regions/64b [%s]" % " ".join(d.word() for d in d64b),
       lambda **k: make_shared(3, d64b, full=True, data_width=64, address_width=32, **k))
+    # ---- parameter corners and glue (hardening audit) -------------------------------------------------------------
+    # through soc.SoCBusHandler (class selection, SoCRegion.decoder, interconnect_register=True, timeout=1e6)
+    soc_regions = [(0x10000000, 0x1000), (0x40000000, 0x10000), (0x80000000, 0x3000)]
+    B("SoCBusHandler axi-lite shared 2x3/32b", lambda **k: make_soc_bus(2, soc_regions, "shared", **k))
+    B("SoCBusHandler axi-lite crossbar 3x2/32b", lambda **k: make_soc_bus(3, soc_regions[:2], "crossbar", **k))
+    B("SoCBusHandler axi shared 2x2/64b", lambda **k: make_soc_bus(2, soc_regions[1:], "shared", full=True, data_width=64, **k))
+    B("SoCBusHandler axi-lite 1x1 origin 0 (point-to-point)/32b", lambda **k: make_soc_bus(1, [(0, 0x10000)], "shared", **k))
+    B("SoCBusHandler axi crossbar 1x1 origin 0x1000 (not point-to-point)/32b",
+      lambda **k: make_soc_bus(1, [(0x1000, 0x1000)], "crossbar", full=True, **k))
+    dcor = [DecRegion(0, 0x10000), DecRegion(0x90000000, 0x3000)]
+    wcor = " ".join(d.word() for d in dcor)
+    # class-default timeout (1e6 cycles: the AXI(Lite)Timeout must stay invisible), register=True (accepted, unused)
+    B("AXILiteShared 2x2 default timeout_cycles/32b [%s]" % wcor,
+      lambda **k: make_shared(2, dcor, timeout="default", data_width=32, address_width=32, **k))
+    B("AXIShared 3x2 default timeout_cycles register=True/32b [%s]" % wcor,
+      lambda **k: make_shared(3, dcor, full=True, timeout="default", register=True, data_width=32, address_width=32, **k))
+    B("AXILiteCrossbar 2x2 register=True/32b [%s]" % wcor,
+      lambda **k: make_xbar(2, dcor, register=True, data_width=32, address_width=32, **k))
+    # data widths 16 and 128 (byte -> word shifts 1 and 4), masters with different address widths (bus = the widest)
+    B("AXILiteShared 2x2/16b [%s]" % wcor, lambda **k: make_shared(2, dcor, data_width=16, address_width=32, **k))
+    B("AXILiteCrossbar 2x2/128b [%s]" % wcor, lambda **k: make_xbar(2, dcor, data_width=128, address_width=32, **k))
+    B("AXIShared 2x2/128b [%s]" % wcor, lambda **k: make_shared(2, dcor, full=True, data_width=128, address_width=32, **k))
+    B("AXILiteShared 3x2 master address widths 32,20,32/32b [%s]" % wcor,
+      lambda **k: make_shared(3, dcor, data_width=32, address_width=32, m_address_widths=[32, 20, 32], **k))
+    B("AXILiteCrossbar 3x2 master address widths 20,32,24/32b [%s]" % wcor,
+      lambda **k: make_xbar(3, dcor, data_width=32, address_width=32, m_address_widths=[20, 32, 24], **k))
+    # id_width > 1: the AXI4 fabrics truncate IDs to the default width of their internal interfaces (finding F_ID, probed
+    # below); the instance joins the grid once that finding is recorded as fixed
+    from runner import load_known
+    if any(e.get("id") == F_ID and e.get("status") == "fixed" for e in load_known("C08")):
+        B("AXICrossbar 2x2 id_width=4/32b [%s]" % wcor,
+          lambda **k: make_xbar(2, dcor, full=True, id_width=4, data_width=32, address_width=32, **k))
+        B("AXIShared 2x2 id_width=4/32b [%s]" % wcor,
+          lambda **k: make_shared(2, dcor, full=True, id_width=4, data_width=32, address_width=32, **k))
     B("AXILitePointToPoint/32b", lambda **k: make_p2p(data_width=32, address_width=32, **k))
     B("AXILiteArbiter 3->1/32b", lambda **k: make_arb(3, data_width=32, address_width=32, **k))
     B("AXIDecoder 1->3 regions/32b", lambda **k: make_dec(_region_map(random.Random(seed + 5), 3), full=True, data_width=32,
@@ -291,6 +326,35 @@ def _counter_cases(ctx):
                 if len(dis) >= 3:
                     break
         ctx.cov.add_cases(modname + " vs ctrNext (all 256 values x request x response)", len(lines), nontriv, exhaustive=True)
+    return dis
+
+
+def _saturation_case(ctx):
+    """The counters inside a fabric up to and beyond their maximum: 258 write addresses accepted without a response
+    (the 256th and later are not counted, as coded), then 258 responses — model and code in lock step, every port."""
+    dis = []
+    for mk, label in ((lambda: make_shared(1, [DecAll()], data_width=32, address_width=32), "AXILiteShared 1x1"),
+                      (lambda: make_xbar(2, [DecAll()], full=True, data_width=32, address_width=32), "AXICrossbar 2x1")):
+        inst = mk()
+        n = inst.n
+        idle = [m_part() for _ in range(n - 1)]
+        trace = []
+        for k in range(258):
+            trace.append(tuple(sum([m_part(aw=(4 * k & 0xffff, 1), ar=(8 * k & 0xffff, 2))] + idle, ()) +
+                               s_part(aw_ready=1, ar_ready=1)))
+        for k in range(258):
+            trace.append(tuple(sum([m_part(b_ready=1, r_ready=1)] + idle, ()) + s_part(b=k & 3, r=(1, k & 0xff))))
+        trace.append(tuple(sum([m_part(aw=(0x10, 1), w=5)] + [m_part(aw=(0x20, 2))] * (n - 1), ()) + s_part(aw_ready=1, w_ready=1)))
+        trace.append(trace[-1])
+        ctx.lean.open(inst.lean_open)
+        model = ctx.lean.run(trace)
+        ctx.lean.close_session()
+        for t, l in enumerate(trace):
+            outs = impl_step(inst, l)
+            if not _masked_equal(inst, outs, model[t]):
+                dis.append(Disagreement(inst, trace[:t + 1], t, outs, model[t]))
+                break
+        ctx.cov.add_cases("counter saturation inside " + label, len(trace), len(trace))
     return dis
 
 
@@ -425,6 +489,7 @@ def correspond(ctx):
     dis += _corpus(ctx)
     dis += _counter_cases(ctx)
     dis += _rr_cases(ctx)
+    dis += _saturation_case(ctx)
     d2, bad = run_jobs(ctx, ctx.jobs, procs=min(len(ctx.jobs), int(os.environ.get("VERIF_PROCS", "0")) or 6))
     dis += d2
     dis += _self_test(ctx)
@@ -550,8 +615,12 @@ def search(ctx, disagreements, proof_info):
         for mk in makers:
             if time.time() > deadline:
                 break
-            inst = mk()
-            r = monitor_run(inst, rng, 1500 if rnd else 600)
+            try:
+                inst = mk()
+                r = monitor_run(inst, rng, 1500 if rnd else 600)
+            except Exception as e:          # a changed implementation may not even build / drive in this shape
+                ctx.cov.notes.append("search instance raised %r" % (e,))
+                continue
             if r:
                 trace, msg = r
                 return {"instance": inst.name, "make": _spec_of(inst), "trace": [list(l) for l in trace], "monitor": msg,
@@ -630,10 +699,25 @@ def _probe_gap(full, kind):
     return bool(msg) and msg.startswith("E:"), msg
 
 
+def _probe_id(full, kind):
+    """AXI4 fabric with id_width=4: aw.id = 0xE driven by the master, what does the slave see?"""
+    if not full:
+        return []
+    mk = make_xbar if kind == "dec" else make_shared
+    inst = mk(1, [DecAll()], full=True, id_width=4, data_width=32, address_width=32)
+    sh, wd = X.pay_field(True, "aw", "id", 32, 32, 4)
+    pay = 0xE << sh
+    o = impl_step(inst, m_part(aw=(0x40, pay)) + s_part(aw_ready=1))
+    seen = split_outs(o, 1, 1)[0][0]
+    got = (seen[AWP] >> sh) & 0xF
+    return [(seen[AWV] == 1 and got != 0xE, "%s 1x1 id_width=4: master drives aw.id=0xe, slave sees aw.id=%#x" % (
+        "crossbar" if kind == "dec" else "shared", got))]
+
+
 def probes(ctx):
     out = []
     notes = []
-    for fid, fn in ((F_ADDR, _probe_addr), (F_WDATA, _probe_wdata), (F_GAP, _probe_gap)):
+    for fid, fn in ((F_ADDR, _probe_addr), (F_WDATA, _probe_wdata), (F_GAP, _probe_gap), (F_ID, _probe_id)):
         fails, whats = [], []
         for full in (False, True):
             for kind in ("dec", "shared"):
